@@ -128,6 +128,12 @@ func (p *parser) BasicParser(urlOrRef string, baseUrl *Url, url *Url, stateOverr
 		if err := p.handleError(url, errors.InvalidURLUnit, false); err != nil {
 			return nil, err
 		}
+		// The input is a scalar value string: a byte that is not valid UTF-8 reads as U+FFFD. That has
+		// to be settled before tabs and newlines go, or removing one from the middle of a broken
+		// multi-byte sequence would join its halves into a valid code point.
+		if !p.opts.acceptInvalidCodepoints && !utf8.ValidString(url.inputUrl) {
+			i, _ = remove(string([]rune(url.inputUrl)), ASCIITabOrNewline)
+		}
 		url.inputUrl = i
 	}
 
